@@ -4,6 +4,7 @@ package main
 
 import (
 	"bufio"
+	"bytes"
 	"encoding/json"
 	"fmt"
 	"html"
@@ -11,6 +12,8 @@ import (
 	"net/http"
 	"net/http/httptest"
 	"net/url"
+	"os"
+	"os/exec"
 	"path"
 	"regexp"
 	"strconv"
@@ -33,6 +36,10 @@ import (
 //	api                    Context.APIHandler / APIHandlerSwaggerUI / APIHandlerRapiDoc with UI options on one request, plus
 //	                       the spec reference of the served page, requested the way a browser does: resolved against the
 //	                       page URL, percent-encoded into a request line, parsed by net/http, served by the same handler
+//	hist                   2-4 members (ui / api inputs as above) BUILT in one process, chained (UI middlewares, each the next
+//	                       handler of the one before, built innermost first as nested calls are; requests go to the head) or
+//	                       side by side, and only then requested, each at its own document path(s) and some variants; every
+//	                       body is compared with the page the same member serves when built alone and fetched at once
 type c20In struct {
 	Kind   string `json:"kind"`
 	P      Bs     `json:"p,omitempty"`
@@ -72,6 +79,35 @@ type c20In struct {
 	HasOSpecURL bool `json:"has_o_spec_url,omitempty"`
 	HasOTitle   bool `json:"has_o_title,omitempty"`
 	HasOTpl     bool `json:"has_o_template,omitempty"` // WithTemplate(the flavour's custom template)
+	// hist
+	Chained bool      `json:"chained,omitempty"`
+	Fresh   bool      `json:"fresh_oracle,omitempty"` // the alone pages come from one fresh process per member
+	Members []c20In   `json:"members,omitempty"`
+	Reqs    []c20HReq `json:"reqs,omitempty"`
+}
+
+// c20HReq: one request of a history, sent to member Target (to the head of the chain when chained).
+type c20HReq struct {
+	Target int    `json:"target"`
+	Req    Bs     `json:"req"`
+	Method string `json:"method,omitempty"`
+}
+
+// c20HObs: what that request got (serve: with the whole body).
+type c20HObs struct {
+	What     string `json:"what"` // serve | spec | next | 404 | router | other
+	CType    string `json:"ctype,omitempty"`
+	Status   int    `json:"status,omitempty"`
+	Body     Bs     `json:"body,omitempty"`
+	NextSame bool   `json:"next_same,omitempty"`
+}
+
+// c20Alone: the page a member serves when nothing else is built between building it and fetching the page; URLPath: the
+// url.Parse oracle of an api member.
+type c20Alone struct {
+	HasPage bool `json:"has_page,omitempty"`
+	Page    Bs   `json:"page,omitempty"`
+	URLPath Bs   `json:"url_path,omitempty"`
 }
 
 type c20Obs struct {
@@ -101,6 +137,9 @@ type c20Obs struct {
 	Abs       bool `json:"abs,omitempty"`
 	RefServes bool `json:"ref_serves,omitempty"`
 	HasPage   bool `json:"has_page,omitempty"`
+	// hist
+	H     []c20HObs  `json:"h,omitempty"`
+	Alone []c20Alone `json:"alone,omitempty"`
 }
 
 type c20 struct{}
@@ -115,13 +154,32 @@ func (c20) Rule() string {
 		"every flavour-specific option too (RedocURL, RapiDocURL, SwaggerURL / preset / styles / two favicons) absent, harmless or hostile, default template and a custom template per flavour that prints every field; " +
 		"the three API-handler flavours with base path, UI path, spec URL (absent, absolute path, nested, absolute URL, scheme-relative, relative, directory; with percent-encoded bytes in a directory or in the " +
 		"document name, raw spaces and non-ASCII, encoded slash / question mark / hash / percent, query string, fragment, invalid escapes), title and template options; request paths derived from the configured path " +
-		"(exact, trailing slash, doubled slash, dot and dot-dot segments, prefix, extension, other case, unrelated, unrooted, empty) x methods; with and without next. Non-trivial: the request path differs " +
+		"(exact, trailing slash, doubled slash, dot and dot-dot segments, prefix, extension, other case, unrelated, unrooted, empty) x methods; with and without next. " +
+		"HISTORIES (about one case in 11): 2-4 UI middlewares of any flavour chained as next handlers of one another (the usual SwaggerUI + OAuth2 callback pair with the same options among them) or side by side, " +
+		"or 2-4 API handlers of any flavour side by side (same context, different spec URL / UI path / title / flavour), neighbours differing in one option or in the flavour only; all are built first, then each is requested at its " +
+		"own document path(s) and at variants, and every page is compared byte for byte with the page the same member serves when built alone. Non-trivial: the request path differs " +
 		"from the configured path textually, or an option is set."
 }
 
 func (c20) Decode(raw json.RawMessage) (any, error) {
 	var in c20In
 	err := json.Unmarshal(raw, &in)
+	if err == nil && in.Kind == "hist" {
+		if len(in.Members) == 0 {
+			return in, fmt.Errorf("c20: history without members")
+		}
+		for _, m := range in.Members {
+			if (m.Kind != "ui" && m.Kind != "api") || m.Flavour < 0 || m.Flavour > 3 || (m.Kind == "api" && m.Flavour > 2) ||
+				(in.Chained && m.Kind != "ui") || m.Kind != in.Members[0].Kind {
+				return in, fmt.Errorf("c20: bad history member")
+			}
+		}
+		for _, q := range in.Reqs {
+			if q.Target < 0 || q.Target >= len(in.Members) {
+				return in, fmt.Errorf("c20: request for a member that does not exist")
+			}
+		}
+	}
 	return in, err
 }
 
@@ -253,7 +311,7 @@ func c20OrDefault(s, d string) string {
 
 func (c20) Gen(r *rand.Rand, tier string, i int) any {
 	m := c20Methods[r.Intn(len(c20Methods))]
-	switch k := r.Intn(20); {
+	switch k := r.Intn(22); {
 	case k < 3:
 		return c20In{Kind: "clean", P: Bs(c20Path(r))}
 	case k < 4:
@@ -277,69 +335,344 @@ func (c20) Gen(r *rand.Rand, tier string, i int) any {
 		in.Req = Bs(c20Req(r, target))
 		return in
 	case k < 15:
-		in := c20In{Kind: "ui", Method: m, HasNext: r.Intn(3) != 0, Flavour: r.Intn(4), Custom: r.Intn(6) == 0}
-		in.UBase = Bs(c20Pick(r, "", "", "/", "/api", "api", "/api/", "/a/../b", "/<b>", "/it's"))
-		in.UPath = Bs(c20Pick(r, "", "", "docs", "/docs/", "ui/redoc", "..", "d\"q", "<x>", "/", ".", "//"))
-		in.USpecURL = Bs(c20Pick(r, "", "", "/swagger.json", "/spec/openapi.json", "http://example.com/x/y.json", "spec.json", "/s.json?a=1&b=2", "javascript:alert(1)", "/x'><script>y</script>", `/q"uote.json`, "/a b.json"))
-		if r.Intn(4) == 0 {
+		return c20GenUI(r, m)
+	case k < 20:
+		return c20GenAPI(r, m)
+	default:
+		return c20GenHist(r)
+	}
+}
+
+func c20GenUI(r *rand.Rand, m string) c20In {
+	in := c20In{Kind: "ui", Method: m, HasNext: r.Intn(3) != 0, Flavour: r.Intn(4), Custom: r.Intn(6) == 0}
+	in.UBase = Bs(c20Pick(r, "", "", "/", "/api", "api", "/api/", "/a/../b", "/<b>", "/it's"))
+	in.UPath = Bs(c20Pick(r, "", "", "docs", "/docs/", "ui/redoc", "..", "d\"q", "<x>", "/", ".", "//"))
+	in.USpecURL = Bs(c20Pick(r, "", "", "/swagger.json", "/spec/openapi.json", "http://example.com/x/y.json", "spec.json", "/s.json?a=1&b=2", "javascript:alert(1)", "/x'><script>y</script>", `/q"uote.json`, "/a b.json"))
+	if r.Intn(4) == 0 {
+		in.USpecURL = Bs(c20SpecURL(r))
+	}
+	in.UTitle = Bs(c20Title(r))
+	switch in.Flavour {
+	case 0:
+		in.RedocURL = c20Asset(r)
+	case 1:
+		in.RapiDocURL = c20Asset(r)
+	default:
+		in.UCb = Bs(c20Pick(r, "", "", "", "/cb", "/cb/", "cb", "/a/../cb", "/docs/oauth2-callback", "'+alert(1)+'"))
+		in.SwaggerURL, in.SwaggerPresetURL, in.SwaggerStylesURL, in.Favicon32, in.Favicon16 = c20Asset(r), c20Asset(r), c20Asset(r), c20Asset(r), c20Asset(r)
+	}
+	o := c20UIOpts(in)
+	target := path.Join(c20OrDefault(o[0], "/"), c20OrDefault(o[1], "docs"))
+	if in.Flavour == 3 {
+		target = c20OrDefault(string(in.UCb), path.Join(target, "oauth2-callback"))
+	}
+	in.Req = Bs(c20Req(r, target))
+	return in
+}
+
+func c20GenAPI(r *rand.Rand, m string) c20In {
+	in := c20In{Kind: "api", Method: m, Flavour: r.Intn(3)}
+	in.CtxBase = Bs(c20Pick(r, "", "/", "/api", "/api/v1", "api", "/api/"))
+	in.SpecTitle = Bs(c20Title(r))
+	base := string(in.CtxBase)
+	if r.Intn(4) == 0 {
+		in.HasOBase, in.UBase = true, Bs(c20Pick(r, "", "/", "/ui", "ui", "/api"))
+		base = string(in.UBase)
+	}
+	if r.Intn(3) == 0 {
+		in.HasOUIPath, in.UPath = true, Bs(c20Pick(r, "", "docs", "documentation", "ui/docs", "/docs/", "swagger.json", "/", "."))
+	}
+	if r.Intn(4) != 0 {
+		in.HasOSpecURL, in.USpecURL = true, Bs(c20Pick(r, "", "/swagger.json", "/spec/openapi.json", "/spec/dir/doc.json", "/api/swagger.json",
+			"http://example.com/x/y.json", "https://example.com/openapi.json", "/a/../b.json", "/docs", "/api/docs", "/pets",
+			"spec.json", "dir/spec.json", "/spec/dir/", "/", "http://example.com", "http://example.com/"))
+		if r.Intn(2) == 0 {
 			in.USpecURL = Bs(c20SpecURL(r))
 		}
-		in.UTitle = Bs(c20Title(r))
-		switch in.Flavour {
-		case 0:
-			in.RedocURL = c20Asset(r)
-		case 1:
-			in.RapiDocURL = c20Asset(r)
-		default:
-			in.UCb = Bs(c20Pick(r, "", "", "", "/cb", "/cb/", "cb", "/a/../cb", "/docs/oauth2-callback", "'+alert(1)+'"))
-			in.SwaggerURL, in.SwaggerPresetURL, in.SwaggerStylesURL, in.Favicon32, in.Favicon16 = c20Asset(r), c20Asset(r), c20Asset(r), c20Asset(r), c20Asset(r)
-		}
-		o := c20UIOpts(in)
-		target := path.Join(c20OrDefault(o[0], "/"), c20OrDefault(o[1], "docs"))
-		if in.Flavour == 3 {
-			target = c20OrDefault(string(in.UCb), path.Join(target, "oauth2-callback"))
-		}
-		in.Req = Bs(c20Req(r, target))
-		return in
+	}
+	if r.Intn(3) == 0 {
+		in.HasOTitle, in.UTitle = true, Bs(c20Title(r))
+	}
+	in.HasOTpl = r.Intn(5) == 0
+	uiTarget := path.Join(c20withSlash(base), c20OrDefault(string(in.UPath), "docs"))
+	specTarget := "/swagger.json"
+	if u, _ := url.Parse(string(in.USpecURL)); u != nil && u.Path != "" {
+		d, f := path.Split(u.Path)
+		specTarget = path.Join(c20OrDefault(d, "/"), c20OrDefault(f, "swagger.json"))
+	}
+	switch r.Intn(5) {
+	case 0, 1:
+		in.Req = Bs(c20Req(r, uiTarget))
+	case 2, 3:
+		in.Req = Bs(c20Req(r, specTarget))
 	default:
-		in := c20In{Kind: "api", Method: m, Flavour: r.Intn(3)}
-		in.CtxBase = Bs(c20Pick(r, "", "/", "/api", "/api/v1", "api", "/api/"))
-		in.SpecTitle = Bs(c20Title(r))
-		base := string(in.CtxBase)
-		if r.Intn(4) == 0 {
-			in.HasOBase, in.UBase = true, Bs(c20Pick(r, "", "/", "/ui", "ui", "/api"))
-			base = string(in.UBase)
-		}
-		if r.Intn(3) == 0 {
-			in.HasOUIPath, in.UPath = true, Bs(c20Pick(r, "", "docs", "documentation", "ui/docs", "/docs/", "swagger.json", "/", "."))
-		}
-		if r.Intn(4) != 0 {
-			in.HasOSpecURL, in.USpecURL = true, Bs(c20Pick(r, "", "/swagger.json", "/spec/openapi.json", "/spec/dir/doc.json", "/api/swagger.json",
-				"http://example.com/x/y.json", "https://example.com/openapi.json", "/a/../b.json", "/docs", "/api/docs", "/pets",
-				"spec.json", "dir/spec.json", "/spec/dir/", "/", "http://example.com", "http://example.com/"))
-			if r.Intn(2) == 0 {
-				in.USpecURL = Bs(c20SpecURL(r))
-			}
-		}
-		if r.Intn(3) == 0 {
-			in.HasOTitle, in.UTitle = true, Bs(c20Title(r))
-		}
-		in.HasOTpl = r.Intn(5) == 0
-		uiTarget := path.Join(c20withSlash(base), c20OrDefault(string(in.UPath), "docs"))
-		specTarget := "/swagger.json"
+		in.Req = Bs(c20Pick(r, path.Join(c20withSlash(string(in.CtxBase)), "pets"), "/pets", "/api/pets", "/nothing", "/", c20Path(r)))
+	}
+	return in
+}
+
+// c20UITarget: the path a ui member is configured on (as the generators compute it, with the real path.Join).
+func c20UITarget(in c20In) string {
+	o := c20UIOpts(in)
+	target := path.Join(c20OrDefault(o[0], "/"), c20OrDefault(o[1], "docs"))
+	if in.Flavour == 3 {
+		target = c20OrDefault(string(in.UCb), path.Join(target, "oauth2-callback"))
+	}
+	return target
+}
+
+// c20APITargets: UI path and spec path of an api member.
+func c20APITargets(in c20In) (string, string) {
+	base := string(in.CtxBase)
+	if in.HasOBase {
+		base = string(in.UBase)
+	}
+	uiTarget := path.Join(c20withSlash(base), c20OrDefault(string(in.UPath), "docs"))
+	specTarget := "/swagger.json"
+	if in.HasOSpecURL {
 		if u, _ := url.Parse(string(in.USpecURL)); u != nil && u.Path != "" {
 			d, f := path.Split(u.Path)
 			specTarget = path.Join(c20OrDefault(d, "/"), c20OrDefault(f, "swagger.json"))
 		}
-		switch r.Intn(5) {
-		case 0, 1:
-			in.Req = Bs(c20Req(r, uiTarget))
-		case 2, 3:
-			in.Req = Bs(c20Req(r, specTarget))
-		default:
-			in.Req = Bs(c20Pick(r, path.Join(c20withSlash(string(in.CtxBase)), "pets"), "/pets", "/api/pets", "/nothing", "/", c20Path(r)))
+	}
+	return uiTarget, specTarget
+}
+
+// c20GenHist: 2-4 members built in one process. A member is derived from its predecessor by changing the flavour only, one
+// option only, or drawn afresh, so that neighbours differ in what a shared buffer / a coarse cache key would not notice.
+func c20GenHist(r *rand.Rand) c20In {
+	h := c20In{Kind: "hist", HasNext: r.Intn(3) != 0, Fresh: r.Intn(3) == 0}
+	n := 2 + r.Intn(3)
+	api := r.Intn(3) == 0
+	h.Chained = !api && r.Intn(2) == 0
+	clean := func(m c20In) c20In { m.Req, m.Method, m.HasNext = "", "", false; return m }
+	if api {
+		m := c20GenAPI(r, "")
+		for len(h.Members) < n {
+			h.Members = append(h.Members, clean(m))
+			switch r.Intn(6) {
+			case 0:
+				m.Flavour = (m.Flavour + 1 + r.Intn(2)) % 3
+			case 1, 2:
+				m.HasOSpecURL, m.USpecURL = true, Bs(c20Pick(r, "/swagger.json", "/spec/openapi.json", "/v2/swagger.json", "/api/swagger.json", "https://example.com/openapi.json", c20SpecURL(r)))
+			case 3:
+				m.HasOUIPath, m.UPath = true, Bs(c20Pick(r, "docs", "documentation", "ui/docs", "help"))
+			case 4:
+				m.HasOTitle, m.UTitle = true, Bs(c20Pick(r, "Other API", "t", c20Title(r)))
+			default:
+				keepBase, keepTitle := m.CtxBase, m.SpecTitle
+				m = c20GenAPI(r, "")
+				if r.Intn(2) == 0 { // the same Context
+					m.CtxBase, m.SpecTitle = keepBase, keepTitle
+				}
+			}
 		}
-		return in
+	} else {
+		m := c20GenUI(r, "")
+		m.Custom = r.Intn(2) == 0
+		for len(h.Members) < n {
+			h.Members = append(h.Members, clean(m))
+			switch r.Intn(7) {
+			case 0, 1:
+				if m.Flavour >= 2 { // the usual pair: SwaggerUI and its OAuth2 callback from the same options
+					m.Flavour = 5 - m.Flavour
+				} else {
+					m.Flavour = 1 - m.Flavour
+					m.RedocURL, m.RapiDocURL = m.RapiDocURL, m.RedocURL
+				}
+			case 2:
+				m.UTitle = Bs(c20Pick(r, "Other API", "t", "A much longer title than the one before, so that the page grows", c20Title(r)))
+			case 3:
+				m.USpecURL = Bs(c20Pick(r, "/swagger.json", "/spec/openapi.json", "/v2/swagger.json", "https://example.com/openapi.json", c20SpecURL(r)))
+			case 4:
+				m.UPath = Bs(c20Pick(r, "docs", "documentation", "ui/docs", "help", "d2"))
+			case 5:
+				m.UBase = Bs(c20Pick(r, "/", "/api", "/v2", "/admin"))
+			default:
+				m = c20GenUI(r, "")
+				m.Custom = r.Intn(2) == 0
+			}
+		}
+	}
+	// every member is asked for its own document(s), the first built first; sometimes a variant as well
+	for k, m := range h.Members {
+		var targets []string
+		if m.Kind == "api" {
+			ui, sp := c20APITargets(m)
+			targets = []string{ui}
+			if r.Intn(3) == 0 {
+				targets = append(targets, sp)
+			}
+		} else {
+			targets = []string{c20UITarget(m)}
+		}
+		for _, t := range targets {
+			h.Reqs = append(h.Reqs, c20HReq{Target: k, Req: Bs(t), Method: "GET"})
+		}
+		if r.Intn(3) == 0 {
+			h.Reqs = append(h.Reqs, c20HReq{Target: k, Req: Bs(c20Req(r, targets[0])), Method: c20Methods[r.Intn(len(c20Methods))]})
+		}
+	}
+	if r.Intn(2) == 0 { // and once more the first one, after all the others
+		h.Reqs = append(h.Reqs, h.Reqs[0])
+	}
+	return h
+}
+
+// c20HistObserve: one request of a history against handler h.
+func c20HistObserve(h http.Handler, final *c20Next, api bool, raw []byte, q c20HReq) c20HObs {
+	*final = c20Next{}
+	req := c20Request(q.Method, string(q.Req))
+	final.orig, final.origPath, final.origM = req, string(q.Req), req.Method
+	rec := httptest.NewRecorder()
+	h.ServeHTTP(rec, req)
+	o := c20HObs{Status: rec.Code, CType: rec.Header().Get("Content-Type")}
+	body := rec.Body.Bytes()
+	switch {
+	case api:
+		switch c20Classify(rec, raw) {
+		case "spec":
+			o.What = "spec"
+		case "ui":
+			o.What, o.Body = "serve", Bs(body)
+		default:
+			o.What = "router"
+		}
+	case final.calls > 0:
+		o.What = "next"
+		o.NextSame = final.calls == 1 && final.same && rec.Code == http.StatusTeapot && len(body) == 0 && o.CType == "" && len(rec.Header()) == 1
+	case rec.Code == http.StatusOK:
+		o.What, o.Body = "serve", Bs(body)
+	case rec.Code == http.StatusNotFound:
+		o.What = "404"
+	default:
+		o.What = "other"
+	}
+	return o
+}
+
+func c20Member(m c20In, next http.Handler) (http.Handler, []byte) {
+	if m.Kind == "api" {
+		c := c20Context(string(m.CtxBase), string(m.SpecTitle))
+		return c20APIHandler(m, c), c.raw
+	}
+	return c20UIHandler(m.Flavour, c20UIOpts(m), c20Assets(m), m.Custom, next), nil
+}
+
+// c20RunHist: build every member, THEN send the requests, then find out what each member serves when it is built alone
+// (built and fetched at once, nothing else built in between).
+func c20RunHist(in c20In, obs *c20Obs) {
+	n := len(in.Members)
+	if n == 0 {
+		panic("c20: empty history")
+	}
+	final := &c20Next{}
+	var fh http.Handler
+	if in.HasNext {
+		fh = final
+	}
+	hs := make([]http.Handler, n)
+	raws := make([][]byte, n)
+	if in.Chained {
+		nh := fh
+		for k := n - 1; k >= 0; k-- { // nested calls build the innermost middleware first
+			if in.Members[k].Kind != "ui" {
+				panic("c20: only UI middlewares can be chained")
+			}
+			hs[k], _ = c20Member(in.Members[k], nh)
+			nh = hs[k]
+		}
+	} else {
+		for k := range in.Members {
+			hs[k], raws[k] = c20Member(in.Members[k], fh)
+		}
+	}
+	for _, q := range in.Reqs {
+		if q.Target < 0 || q.Target >= n {
+			panic("c20: request for a member that does not exist")
+		}
+		k := q.Target
+		if in.Chained {
+			k = 0
+		}
+		obs.H = append(obs.H, c20HistObserve(hs[k], final, in.Members[k].Kind == "api", raws[k], q))
+	}
+	obs.Alone = make([]c20Alone, n)
+	if !in.Fresh {
+		for k, m := range in.Members {
+			obs.Alone[k] = c20AloneOf(m)
+		}
+		return
+	}
+	// one fresh process per member: nothing at all was built before in that process, so no state of this one (a cache keyed
+	// too coarsely, say) can reach the oracle
+	exe, err := os.Executable()
+	if err != nil {
+		panic(err)
+	}
+	var wg sync.WaitGroup
+	errs := make([]error, n)
+	for k := range in.Members {
+		wg.Add(1)
+		go func(k int) {
+			defer wg.Done()
+			mj, _ := json.Marshal(in.Members[k])
+			cmd := exec.Command(exe, c20AloneArg)
+			cmd.Stdin = bytes.NewReader(mj)
+			out, err := cmd.Output()
+			if err == nil {
+				err = json.Unmarshal(out, &obs.Alone[k])
+			}
+			errs[k] = err
+		}(k)
+	}
+	wg.Wait()
+	for _, err := range errs {
+		if err != nil {
+			panic("c20: fresh-process oracle: " + err.Error())
+		}
+	}
+}
+
+// c20AloneOf: build the member, nothing else, and fetch its page at once.
+func c20AloneOf(m c20In) c20Alone {
+	var a c20Alone
+	h, raw := c20Member(m, nil)
+	target := ""
+	if m.Kind == "api" {
+		target, _ = c20APITargets(m)
+		su := ""
+		if m.HasOSpecURL {
+			su = string(m.USpecURL)
+		}
+		if u, _ := url.Parse(su); u != nil {
+			a.URLPath = Bs(u.Path)
+		}
+	} else {
+		target = c20UITarget(m)
+	}
+	rec := httptest.NewRecorder()
+	h.ServeHTTP(rec, c20Request("GET", target))
+	if rec.Code == 200 && strings.HasPrefix(rec.Header().Get("Content-Type"), "text/html") && (raw == nil || c20Classify(rec, raw) == "ui") {
+		a.HasPage, a.Page = true, Bs(append([]byte(nil), rec.Body.Bytes()...))
+	}
+	return a
+}
+
+// The harness binary doubles as the fresh-process oracle: `harness c20-alone` reads one member (JSON) from stdin and prints
+// what it serves when it is the only thing ever built in the process.
+const c20AloneArg = "c20-alone"
+
+func init() {
+	if len(os.Args) == 2 && os.Args[1] == c20AloneArg {
+		var m c20In
+		if err := json.NewDecoder(os.Stdin).Decode(&m); err != nil || (m.Kind != "ui" && m.Kind != "api") {
+			fmt.Fprintln(os.Stderr, "c20-alone: bad member", err)
+			os.Exit(2)
+		}
+		out, _ := json.Marshal(c20AloneOf(m))
+		os.Stdout.Write(out)
+		os.Exit(0)
 	}
 }
 
@@ -716,6 +1049,8 @@ func (c20) Run(inAny any) any {
 					c20RefPaths(string(in.Req), ref, string(in.USpecURL), &obs)
 				}
 			}
+		case "hist":
+			c20RunHist(in, &obs)
 		case "api":
 			c := c20Context(string(in.CtxBase), string(in.SpecTitle))
 			h := c20APIHandler(in, c)
@@ -819,19 +1154,63 @@ func (c20) Coq(inAny any, obsAny any) string {
 		return fmt.Sprintf("CUI %s (mkUI %s %s %s %s %s %s) %s %s %s %s %s %s %s %s", c20Flavours[in.Flavour], coqBytes(o[0]), coqBytes(o[1]), coqBytes(o[2]), coqBytes(o[3]), coqBytes(o[4]),
 			coqBytesList(c20Assets(in)), coqBool(in.HasNext), c20B(in.Req), c20ObsTerm(obs, false), c20B(obs.Skel), c20B(obs.BaseSkel), coqOpt(obs.HasRef, c20B(obs.Ref)),
 			coqOpt(obs.HasRefPath, c20B(obs.RefPath)), coqOpt(obs.HasWantPath, c20B(obs.WantPath)))
+	case "hist":
+		if obs.Panicked || len(obs.Alone) != len(in.Members) || len(obs.H) != len(in.Reqs) {
+			// nothing sensible was observed: a member list without requests answered makes the case fail in Coq
+			return fmt.Sprintf("CHist %s %s [] [(0, %s, HOOther)]", coqBool(in.Chained), coqBool(in.HasNext), coqBytes(""))
+		}
+		ms := make([]string, len(in.Members))
+		for k, m := range in.Members {
+			al := obs.Alone[k]
+			if m.Kind == "api" {
+				ms[k] = fmt.Sprintf("MAPI %s %s %s", []string{"Redoc", "RapiDoc", "SwaggerUI"}[m.Flavour], c20APITerm(m, al.URLPath), c20B(al.Page))
+			} else {
+				o := c20UIOpts(m)
+				ms[k] = fmt.Sprintf("MUI %s (mkUI %s %s %s %s %s %s) %s", c20Flavours[m.Flavour], coqBytes(o[0]), coqBytes(o[1]), coqBytes(o[2]), coqBytes(o[3]), coqBytes(o[4]),
+					coqBytesList(c20Assets(m)), c20B(al.Page))
+			}
+		}
+		rs := make([]string, len(in.Reqs))
+		for i, q := range in.Reqs {
+			h := obs.H[i]
+			ct, ok := c20CType(h.CType)
+			t := "HOOther"
+			switch h.What {
+			case "serve":
+				if ok {
+					t = fmt.Sprintf("(HOServe %s %s)", ct, c20B(h.Body))
+				}
+			case "spec":
+				t = "HOSpec"
+			case "next":
+				t = fmt.Sprintf("(HONext %s)", coqBool(h.NextSame))
+			case "404":
+				if ok {
+					t = fmt.Sprintf("(HO404 %s)", ct)
+				}
+			case "router":
+				t = "HORouter"
+			}
+			rs[i] = fmt.Sprintf("(%d, %s, %s)", q.Target, c20B(q.Req), t)
+		}
+		return fmt.Sprintf("CHist %s %s [%s] [%s]", coqBool(in.Chained), coqBool(in.HasNext), strings.Join(ms, ";\n   "), strings.Join(rs, ";\n   "))
 	case "api":
 		fl := []string{"Redoc", "RapiDoc", "SwaggerUI"}[in.Flavour]
 		what := map[string]string{"spec": "OASpec", "ui": "OAUI", "router": "OARouter"}[obs.What]
 		if what == "" || obs.Panicked {
 			what = "OAOther"
 		}
-		a := fmt.Sprintf("(mkAPI %s %s %s %s %s %s %s)", c20B(in.CtxBase), c20B(in.SpecTitle), coqOpt(in.HasOBase, c20B(in.UBase)), coqOpt(in.HasOUIPath, c20B(in.UPath)),
-			coqOpt(in.HasOSpecURL, c20B(in.USpecURL)), coqOpt(in.HasOTitle, c20B(in.UTitle)), c20B(obs.URLPath))
+		a := c20APITerm(in, obs.URLPath)
 		return fmt.Sprintf("CAPI %s %s %s %s %s %s %s %s %s %s", fl, a, c20B(in.Req), what, coqBool(obs.Abs), coqOpt(obs.HasRef, c20B(obs.Ref)),
 			coqOpt(obs.HasRefPath, c20B(obs.RefPath)), coqOpt(obs.HasWantPath, c20B(obs.WantPath)), coqBool(obs.RefServes),
 			coqOpt(obs.HasPage, coqPair(c20B(obs.Skel), c20B(obs.BaseSkel))))
 	}
 	panic("unknown kind " + in.Kind)
+}
+
+func c20APITerm(in c20In, urlPath Bs) string {
+	return fmt.Sprintf("(mkAPI %s %s %s %s %s %s %s)", c20B(in.CtxBase), c20B(in.SpecTitle), coqOpt(in.HasOBase, c20B(in.UBase)), coqOpt(in.HasOUIPath, c20B(in.UPath)),
+		coqOpt(in.HasOSpecURL, c20B(in.USpecURL)), coqOpt(in.HasOTitle, c20B(in.UTitle)), c20B(urlPath))
 }
 
 func (c20) Classify(inAny any, obsAny any) []string {
@@ -851,6 +1230,35 @@ func (c20) Category(inAny any, obsAny any) (string, bool) {
 		return "path/" + in.Kind, len(in.P) > 1 || len(in.Elems) > 1
 	case "spec":
 		return "spec/" + obs.What, in.HasOPath || in.HasODoc || in.Base != ""
+	case "hist":
+		shape := "side-by-side"
+		if in.Chained {
+			shape = "chained"
+		}
+		swaggerFamily := 0
+		for _, m := range in.Members {
+			if m.Flavour >= 2 {
+				swaggerFamily++
+			}
+		}
+		fam := ""
+		if swaggerFamily >= 2 {
+			fam = "/two-of-the-swagger-family"
+		}
+		served := 0
+		for _, h := range obs.H {
+			if h.What == "serve" {
+				served++
+			}
+		}
+		kind := "ui"
+		if in.Members[0].Kind == "api" {
+			kind = "api"
+		}
+		if in.Fresh {
+			shape += "/fresh-process-oracle"
+		}
+		return fmt.Sprintf("hist/%s/%s/%d-members%s/%d-pages-served", kind, shape, len(in.Members), fam, served), true
 	case "ui":
 		t := "default-template"
 		if in.Custom {
